@@ -9,6 +9,8 @@ import (
 	"time"
 )
 
+var dumpN int
+
 func main() {
 	if len(os.Args) < 2 {
 		fmt.Fprintln(os.Stderr, "usage: govc verify <func>... | check <prop> <tier> | list")
@@ -20,6 +22,7 @@ func main() {
 		repo := fs.String("repo", "/repo", "repository")
 		timeout := fs.Int("t", 10, "solver timeout (s)")
 		verbose := fs.Bool("v", false, "verbose")
+		showW := fs.String("w", "", "print witness for failing obligations whose name contains this")
 		dump := fs.String("dump", "", "dump SMT of obligations whose name contains this")
 		fs.Parse(os.Args[2:])
 		t0 := time.Now()
@@ -75,14 +78,30 @@ func main() {
 			for _, n := range names {
 				for _, o := range byName[n] {
 					if o.Status != "proved" || *verbose {
-						fmt.Printf("   %-8s %-60s %s %s %.2fs  [%s]\n", o.Status, o.Name, o.Pos, o.Solver, o.Time, firstLine(o.Clause))
+						stt := o.Status
+						if stt == "unknown" && o.Model != "" {
+							stt = "unk+cand"
+						}
+						fmt.Printf("   %-8s %-60s %s %s %.2fs  [%s]\n", stt, o.Name, o.Pos, o.Solver, o.Time, firstLine(o.Clause))
 						if o.Status != "proved" {
 							bad++
 						}
 					}
+					if *showW != "" && strings.Contains(o.Name, *showW) && o.Status != "proved" {
+						w := o.Witness(dir, o.Status == "unknown")
+						var ks []string
+						for k := range w {
+							ks = append(ks, k)
+						}
+						sort.Strings(ks)
+						for _, k := range ks {
+							fmt.Printf("        %-50s = %s\n", k, w[k])
+						}
+					}
 					if *dump != "" && strings.Contains(o.Name, *dump) {
-						fn := fmt.Sprintf("/var/tmp/dump-%s.smt2", sanitize(o.Name))
-						os.WriteFile(fn, []byte("(set-option :produce-models true)\n"+o.smt(true, true)+"(get-model)\n"), 0o644)
+						dumpN++
+						fn := fmt.Sprintf("/var/tmp/dump-%s-%d.smt2", sanitize(o.Name), dumpN)
+						os.WriteFile(fn, []byte("(set-option :produce-models true)\n(set-logic ALL)\n"+o.smtMode(true, ModeRelevant, false)), 0o644)
 						fmt.Println("      dumped", fn)
 					}
 				}
@@ -95,6 +114,7 @@ func main() {
 			}
 		}
 		if bad > 0 {
+			os.RemoveAll(dir)
 			os.Exit(1)
 		}
 	default:
